@@ -34,6 +34,7 @@ ASSUMPTIONS = [
 ]
 TIMEOUT = 60
 PATIENCE = 0.05
+SUBMIT_PATIENCE = 0.5
 
 _CTL = None
 _REAL = None
@@ -70,6 +71,7 @@ class Ctl:
 		self.error = None
 		self.shutdown_called = False
 		self.impatient = 0
+		self.adapted = 0
 
 
 def gated_calc_file_signature(kspec, seqfile, **kw):
@@ -183,11 +185,29 @@ def controller(ctl, order, p, manual):
 		if p == 0:
 			ctl.pre_done.set()
 		done = 0
-		for pos in order:
-			# the model speaks about the pos-th SUBMITTED task; translate to the file it is about
+		pending = list(order)
+		completed_pos = set()
+		while pending:
+			# the model speaks about the pos-th SUBMITTED task; translate to the file it is about.  An implementation that submits lazily
+			# (a bounded in-flight window) has not submitted late positions yet and may need earlier completions first: after a short
+			# patience the controller completes the oldest submitted, not yet completed task instead (the order is then 'adapted';
+			# the result is judged at the end in any case).
+			pos = pending[0]
 			with ctl.tick:
-				if not ctl.tick.wait_for(lambda: len(ctl.submitted) > pos, TIMEOUT):
-					raise Divergence(f'task at submission position {pos} was never submitted')
+				have = ctl.tick.wait_for(lambda: len(ctl.submitted) > pos or ctl.closed.is_set(), SUBMIT_PATIENCE)
+			if ctl.closed.is_set():
+				break
+			if not have:
+				cands = [q for q in range(len(ctl.submitted)) if q not in completed_pos]
+				if not cands:
+					with ctl.tick:
+						if not ctl.tick.wait_for(lambda: len(ctl.submitted) > len(completed_pos) or ctl.closed.is_set(), TIMEOUT):
+							raise Divergence(f'nothing submitted and nothing left to complete (waiting for submission position {pos})')
+					continue
+				pos = cands[0]
+				ctl.adapted += 1
+			pending.remove(pos)
+			completed_pos.add(pos)
 			i = ctl.submitted[pos]
 			if manual is None:
 				# the model says task i is running now: validate against the implementation
@@ -195,7 +215,6 @@ def controller(ctl, order, p, manual):
 					raise Divergence(f'model/implementation divergence: task {i} should be running (order {order}) but never reached its gate')
 				ctl.gates[i].release()
 			else:
-				# wait until submitted
 				manual.complete(pos)
 			if not ctl.fut_done[i].wait(TIMEOUT):
 				raise Divergence(f'future of task {i} not done after its gate was released')
@@ -353,6 +372,8 @@ def plan(tier, seed):
 			for fault in [None] + list(range(n)):
 				tasks.append(('t_orders', dict(n=n, mode=mode, w=w, fault=fault, tier=tier, seed=seed)))
 	tasks.append(('t_sequential', dict(n=n)))
+	for mode in ('threads', 'processes', 'executor'):
+		tasks.append(('t_many_files', dict(mode=mode, tier=tier)))
 	# call HISTORIES: state carried from one call to the next (same thread / reused executor), incl. calls that fail mid-file
 	for mode in ('sequential', 'reused-thread-executor-1', 'reused-thread-executor-2', 'reused-process-executor-1', 'threads', 'processes'):
 		tasks.append(('t_histories', dict(mode=mode, depth=2 if tier == 'quick' else 3)))
@@ -383,6 +404,37 @@ def t_orders(n, mode, w, fault, tier, seed):
 	sh.states = nstates
 	sh.transitions = ntrans
 	sh.sample(dict(family='orders', mode=mode, workers=w, n=n, fault=fault, last_order=list(order), pre_completed=p, model_states=nstates))
+	return sh
+
+
+def t_many_files(mode, tier):
+	"""File counts well above the worker count (n = 5..13, thorough 21, 33; w = 1, 2, 3): for each (n, w) the submission-order run plus the
+	most skewed orders the pool model allows (always finish the NEWEST running task first; alternate oldest / newest) - bounded in-flight
+	windows, batching by worker count and similar bookkeeping show here."""
+	from gambit.sigs.calc import calc_file_signature
+	sh = Shard()
+	ks = fixtures.kspec(11, 'ATGAC')
+	ns = [5, 6, 7, 9, 13] + ([21, 33] if tier != 'quick' else [])
+	with fixtures.workdir('c13m') as d:
+		for n in ns:
+			files = make_files(d, n)
+			expected = [calc_file_signature(ks, f) for f in files]
+			for w in ((1, 2, 3) if mode != 'executor' else (n,)):
+				orders = set()
+				for strategy in ('oldest', 'newest', 'alternate'):
+					done = []
+					while len(done) < n:
+						running = [i for i in range(n) if i not in done][:w]
+						pick = running[0] if strategy == 'oldest' or (strategy == 'alternate' and len(done) % 2 == 0) else running[-1]
+						done.append(pick)
+					orders.add(tuple(done))
+				for order in sorted(orders):
+					for p in (0, 2):
+						run_one(sh, ks, files, expected, mode, w, order, p, None, None)
+						sh.count('many_file_runs')
+	sh.states = 1
+	sh.transitions = 1
+	sh.sample(dict(family='many-files', mode=mode, ns=ns))
 	return sh
 
 
@@ -563,7 +615,7 @@ def violation_key(v):
 
 def finalize(agg, tier):
 	for c in ('orders_differing_from_submission_order', 'last_submitted_finishes_first', 'runs_with_pre_completed_futures', 'faults_raised',
-	          'fault_completes_first', 'fault_completes_last', 'body_interleavings', 'valid_calls_after_a_failed_call'):
+	          'fault_completes_first', 'fault_completes_last', 'body_interleavings', 'valid_calls_after_a_failed_call', 'many_file_runs'):
 		agg.require(c, 10)
 
 
